@@ -805,6 +805,9 @@ def gen_foreign(rng, n):
             # occupancy / B-factor left blank ('?' in mmCIF) for one atom or for all: both readers then set the whole
             # column to 0 ("field typing and defaults")
             "no_occ": [None, None, None, None, None, "one", "all"][int(rng.integers(0, 7))],
+            # an entry with two models (NMR style): MODEL / ENDMDL records in the PDB file, pdbx_PDB_model_num in the mmCIF file;
+            # both readers return the atoms of all models
+            "models": 2 if (n >= 2 and rng.random() < 0.3) else 1,
             "drop": [str(x) for x in CIF_OPTIONAL if rng.random() < 0.25],
             "extra": [str(x) for x in CIF_EXTRA if rng.random() < 0.3]}
     # ---- PDB
@@ -816,7 +819,11 @@ def gen_foreign(rng, n):
          "CRYST1  100.000  100.000  100.000  90.00  90.00  90.00 P 1           1"]
     serial = 0
     blank = set(range(n)) if desc["no_occ"] == "all" else {int(rng.integers(0, n))} if desc["no_occ"] == "one" else set()
+    if desc["models"] == 2:
+        L.append("MODEL        1")
     for i, a in enumerate(atoms):
+        if desc["models"] == 2 and i == n // 2:
+            L += ["ENDMDL", "MODEL        2"]
         serial += 1
         a["serial_pdb"] = serial
         name = a["name"]
@@ -832,6 +839,8 @@ def gen_foreign(rng, n):
         if i == hetero_from - 1 or (i < n - 1 and rng.random() < 0.15):
             serial += 1
             L.append(f"TER   {serial:>5}      {a['resName']:>3} {a['chain']}{a['resSeq']:>4}{a['ins'] or ' '}")
+    if desc["models"] == 2:
+        L.append("ENDMDL")
     L += ["CONECT    1    2", "MASTER        0    0    0    0    0    0    0    6 %4d    1    0    0" % n, "END"]
     pdb_text = "\n".join(L) + "\n"
     # ---- mmCIF
@@ -849,7 +858,7 @@ def gen_foreign(rng, n):
              "Cartn_x": f"{a['x']:.3f}", "Cartn_y": f"{a['y']:.3f}", "Cartn_z": f"{a['z']:.3f}", "occupancy": "?" if i in blank else f"{a['occ']:.2f}",
              "B_iso_or_equiv": "?" if i in blank else f"{a['b']:.2f}", "pdbx_formal_charge": a["charge"] or "?", "auth_seq_id": str(a["resSeq"]),
              "auth_comp_id": _cif_tok(a["resName"]), "auth_asym_id": a["chain"], "auth_atom_id": _cif_tok(a["name"]),
-             "pdbx_PDB_model_num": "1", "Cartn_x_esd": "?", "occupancy_esd": "?", "calc_flag": ".", "footnote_id": "?"}
+             "pdbx_PDB_model_num": "2" if (desc["models"] == 2 and i >= n // 2) else "1", "Cartn_x_esd": "?", "occupancy_esd": "?", "calc_flag": ".", "footnote_id": "?"}
         rows.append([v[c] for c in cols])
     width = [max(len(r[j]) for r in rows) for j in range(len(cols))]
     body = []
